@@ -152,6 +152,40 @@ CHECKS["C20"] = dict(
          "non-negativity, monotonicity under appending, scaling within 1%, monospace advance equality.",
     ref="DESIGN.md §4 C20")
 
+CHECKS["C04"] = dict(
+    technique="decision-table extraction of the page-break loop body (exhaustive over its atoms) + linear-form guards + look-ahead/dataflow rules",
+    text="Static argument (A) for the decision logic: the loop body of _assign_pages is evaluated over the atoms subline start, group "
+         "start, new_page, i>0, current_rows>0, overflow; on all consistent rows the page counter increments exactly when "
+         "current_rows>0 ∧ (subline start ∨ (new_page ∧ group start) ∨ overflow), the page is stored unconditionally, current_rows "
+         "is reset/accumulated; overflow guard and available rows as linear forms. Necessary conditions (N): forced-break keyword "
+         "arguments per strategy, no look-ahead (prefix stability), column-wise group-change flags, pages materialised in ascending "
+         "order from [min,max] ranges, every row adds >= 1.",
+    note=TRUSTED + "Row heights are those computed by calculate_row_metadata (the estimator is C03's subject). Not decided: where breaks "
+         "fall for a concrete height vector.",
+    ref="DESIGN.md §4 C04")
+
+CHECKS["C05"] = dict(
+    technique="decision tables for the three 'spanning rows shown' sites + linear forms + loop/flag discipline rules",
+    text="Necessary conditions (N), decision-table equality (A) for R05.2: heading values and boundaries come from the page's own "
+         "(start_row, end_row) with page_relative_row = row_idx+1-start_row; 'spanning rows shown' at render and _render_body and "
+         "'page_by columns removed' in prepare_dataframe are the same boolean function of (new_page, pageby_row); the divider literal "
+         "and its filter form agree at all sites and yield no budget; sticky-flag discipline of the level loop in declaration order; "
+         "heading rows are part of the first row's height; subline heading on every page; column-wise boundary detection and "
+         "segment < headings < cursor order at each boundary.",
+    note=TRUSTED + "Not decided: correct heading placement for concrete group runs (depends on run-time page assignment).",
+    ref="DESIGN.md §4 C05")
+
+CHECKS["C07"] = dict(
+    technique="decision-table extraction of the border logic with lazy atom discovery, exhaustive over 392 configurations, vs the documented hierarchy",
+    text="Static argument (A) for the decision logic: _apply_pagination_borders with its helpers inlined is evaluated symbolically; "
+         "every leaf's effects (row, side, style source; component overrides) are compared with the three-tier hierarchy on every "
+         "configuration of first/last x header x footnote{text,as_table,placement} x source{...} (exhaustive). Plus: header top-edge "
+         "site, override consumers, per-page deep copy and alias-free row expansion, no other border stores, data cells read their "
+         "own (i,j), multi-section first/last clearing, processor applied unconditionally to every page.",
+    note=TRUSTED + "Assumes a configured header list renders a header row on the first page and the four edge styles are non-empty. "
+         "Not decided: border widths/colours (never emitted), page_by without column headers for the top-edge clause.",
+    ref="DESIGN.md §4 C07, appendix C")
+
 NOT_YET = "check not built yet in this session (design in DESIGN.md); claimed once its checker exists"
 
 NOT_APPLICABLE: dict[str, str] = {}
